@@ -14,7 +14,7 @@ func init() {
 	Register(&Property{
 		ID:             "C03",
 		Run:            runC03,
-		Rule:           "runs = (sometimes after a quiet prelude in which weeks pass, and are archived, before the GCA registers and before any device exists) generated histories of reports, authorizations/bans, clock advances (1 slot to several weeks), simulated time (real rotation loop), restarts, statistics GETs (archived / live first / live second / future / misaligned, with and without insert_false_negatives); every rotation is observed inside migrateReports and checked slot by slot; non-trivial = at least one rotation and one archived-week query happened; distinct = distinct decision signatures",
+		Rule:           "runs = (sometimes after a quiet prelude in which weeks pass, and are archived, before the GCA registers and before any device exists) generated histories of reports (incl. signed ones with the reserved readings 0 and 1), authorizations/bans (also injected right in front of the rotation thread's critical section), clock advances (1 slot to several weeks), simulated time (real rotation loop), restarts, statistics GETs (archived / live first / live second / future / misaligned, with and without insert_false_negatives); every rotation is observed inside migrateReports and checked slot by slot; non-trivial = at least one rotation and one archived-week query happened; distinct = distinct decision signatures",
 		Real:           []string{"rotation loop and migrateReports", "impact-rate loop (repo's test stub for the WattTime value)", "AllDeviceStatsHandler/buildDeviceStats", "allDeviceStats.dat persistence and load", "report/authorization paths"},
 		Stub:           []string{"WattTime service (repo's own test-mode stub)", "socket listeners"},
 		RequiredProbes: []string{"hist.rotation", "hist.stats-archived", "hist.stats-archived-falseneg", "hist.restart", "hist.multi-rotation", "c03.ban-before-rotation", "c03.empty-week-archived", "c03.authorization-in-front-of-rotation"},
